@@ -303,11 +303,18 @@ namespace vd
     };
 
     // ---- C20: two VMs on two threads ----
-    static std::string run_program_capture(const std::string& text, bool controlled_thread, int tid, sched* sc, const std::string& ops = "full")
+    static void load_cfg(runtime& rt, const std::string& cfg)
+    {
+        if (cfg.empty()) return;
+        fileio::pathinfo ci(std::string("config.cpp"), std::string("config.cpp"));
+        rt.parser_config().parse(rt.confighost(), cfg, ci);
+    }
+    static std::string run_program_capture(const std::string& text, bool controlled_thread, int tid, sched* sc, const std::string& ops = "full", const std::string& cfg = "")
     {
         vmconf c; c.ops = ops == "synth" ? "full" : ops; c.synth = ops == "synth";
         auto v = make_vm(100 + tid, c);
         auto& rt = *v->rt;
+        load_cfg(rt, cfg);
         fileio::pathinfo pi(std::string("p.sqf"), std::string("p.sqf"));
         std::string out;
         auto pp = rt.parser_preprocessor().preprocess(rt, text, pi);
@@ -324,7 +331,7 @@ namespace vd
     // ---- C20 controlled: two VMs on two threads, interleaved at instruction boundaries (do.poll hook) ----
     struct isostate
     {
-        std::string p, q; sched sc; std::string out[2]; std::string ops[2] = { "full", "full" };
+        std::string p, q; sched sc; std::string out[2]; std::string ops[2] = { "full", "full" }; std::string cfg[2];
     };
     static std::string logs_of(int vmid)
     {
@@ -341,6 +348,7 @@ namespace vd
         fileio::pathinfo pi(std::string("p.sqf"), std::string("p.sqf"));
         const std::string& text = tid == 0 ? st->p : st->q;
         S->point("iso.created");
+        if (!st->cfg[tid].empty()) { load_cfg(rt, st->cfg[tid]); S->point("iso.config_loaded"); }
         auto pp = rt.parser_preprocessor().preprocess(rt, text, pi);
         S->point("iso.preprocessed");
         if (pp.has_value())
@@ -359,12 +367,12 @@ namespace vd
     }
     struct iso_explorer
     {
-        std::string p, q, expect, p_ops = "full", q_ops = "full"; int bound; long max_exec; long execs = 0, points = 0; bool capped = false;
+        std::string p, q, expect, p_ops = "full", q_ops = "full", p_cfg, q_cfg; int bound; long max_exec; long execs = 0, points = 0; bool capped = false;
         std::set<std::string> outcomes; js::val violations = js::val::array();
         void explore(std::vector<int> prefix)
         {
             if (execs >= max_exec) { capped = true; return; }
-            auto* st = new isostate(); st->p = p; st->q = q; st->ops[0] = p_ops; st->ops[1] = q_ops;
+            auto* st = new isostate(); st->p = p; st->q = q; st->ops[0] = p_ops; st->ops[1] = q_ops; st->cfg[0] = p_cfg; st->cfg[1] = q_cfg;
             g_log.clear();
             st->sc.reset(2, prefix); S = &st->sc;
             std::thread t0(iso_body, st, 0), t1(iso_body, st, 1);
@@ -470,10 +478,13 @@ namespace vd
             verif::g_hooks.point = hook_point; verif::g_hooks.on_event = nullptr; verif::g_hooks.slice = 0;
             iso_explorer ex; ex.p = req["p"].str(); ex.q = req["q"].str();
             if (req.has("p_ops")) ex.p_ops = req["p_ops"].str();
-            if (req.has("q_ops")) ex.q_ops = req["q_ops"].str(); ex.bound = (int)req["bound"].i64(1); ex.max_exec = req["max_executions"].i64(20000);
+            if (req.has("q_ops")) ex.q_ops = req["q_ops"].str();
+            if (req.has("p_cfg")) ex.p_cfg = req["p_cfg"].str();
+            if (req.has("q_cfg")) ex.q_cfg = req["q_cfg"].str();
+            ex.bound = (int)req["bound"].i64(1); ex.max_exec = req["max_executions"].i64(20000);
             // reference: P alone (Q = empty program) under the same harness
             {
-                auto* st = new isostate(); st->p = ex.p; st->q = ""; st->ops[0] = ex.p_ops; st->ops[1] = ex.q_ops;
+                auto* st = new isostate(); st->p = ex.p; st->q = ""; st->ops[0] = ex.p_ops; st->ops[1] = ex.q_ops; st->cfg[0] = ex.p_cfg;
                 g_log.clear(); st->sc.reset(2, {}); S = &st->sc;
                 std::thread t0(iso_body, st, 0), t1(iso_body, st, 1);
                 st->sc.go(); t0.join(); t1.join(); S = nullptr;
@@ -492,11 +503,12 @@ namespace vd
             g_clock.real = true;
             std::string p = req["p"].str(), q = req["q"].str();
             std::string p_ops = req.has("p_ops") ? req["p_ops"].str() : "full", q_ops = req.has("q_ops") ? req["q_ops"].str() : "full";
+            std::string p_cfg = req.has("p_cfg") ? req["p_cfg"].str() : "", q_cfg = req.has("q_cfg") ? req["q_cfg"].str() : "";
             int rep = (int)req["repeat"].i64(5);
             for (int i = 0; i < rep; i++)
             {
-                std::thread t0([&] { run_program_capture(p, false, 0, nullptr, p_ops); });
-                std::thread t1([&] { run_program_capture(q, false, 1, nullptr, q_ops); });
+                std::thread t0([&] { run_program_capture(p, false, 0, nullptr, p_ops, p_cfg); });
+                std::thread t1([&] { run_program_capture(q, false, 1, nullptr, q_ops, q_cfg); });
                 t0.join(); t1.join();
             }
             res.set("runs", rep);
